@@ -194,7 +194,9 @@ fn check_stream(name: &str) -> Option<String> {
                 // content that must not end the stream or disturb its neighbours: empty data, bare line ends, field look-alikes
                 "content" => (vec![m("first"), m(""), m("\n"), m("\r"), t("x", ""), m("a\rid: 7"), m("a\r\nevent: y\n"), m(":comment"), m("data: nested"), m("retry: 5"), m("last")], 10),
                 // one byte more than the writer reads at once
-                "oversize" => (vec![m("before"), m(&"s".repeat(65529 - 7)), m("after")], 4),
+                // (such an event used to abort the stream: repaired defect f72b510 -- it is delivered in pieces)
+                "oversize" => (vec![m("before"), m(&"s".repeat(65529 - 7)), m("after"), m(&"t".repeat(70_000)), t("big", &format!("{}\n{}", "u".repeat(65_528), "v".repeat(140_000))),
+                                    m(&format!("{}\u{e9}{}", "w".repeat(65_520), "x".repeat(9))), m(&"\u{1F600}".repeat(40_000)), m("last")], 4),
                 "burst" => ((0..40).map(|i| m(&format!("b{i}"))).collect(), 0),
                 // one event per chunk (the pause lets the writer drain), the block `data: ..\n` exactly as long as each value at
                 // which the chunk-size line gains a hex digit, one below and one above, and the largest the writer reads at once:
